@@ -278,6 +278,40 @@ impl hashbrown::Equivalent<PKey> for KeyRef {
     }
 }
 
+/// Unsized equivalent borrowed form: the key id is the *length* of the slice. Slices for different
+/// ids cut from one buffer all start at the same address (a key and its prefix are different keys).
+#[repr(transparent)]
+pub struct KeyLen(pub [u8]);
+
+pub static KEYLEN_BUF: [u8; 1 << 12] = [0; 1 << 12];
+
+impl KeyLen {
+    /// `None` when the id does not fit the shared buffer.
+    pub fn of(id: u32) -> Option<&'static KeyLen> {
+        let s = KEYLEN_BUF.get(..id as usize)?;
+        // SAFETY: KeyLen is repr(transparent) over [u8]
+        Some(unsafe { &*(s as *const [u8] as *const KeyLen) })
+    }
+}
+
+impl Hash for KeyLen {
+    fn hash<H: Hasher>(&self, h: &mut H) {
+        h.write_u32(self.0.len() as u32);
+        h.write_u32(0);
+    }
+}
+
+impl hashbrown::Equivalent<Key> for KeyLen {
+    fn equivalent(&self, k: &Key) -> bool {
+        key_eq(self.0.len() as u32, k.id)
+    }
+}
+impl hashbrown::Equivalent<PKey> for KeyLen {
+    fn equivalent(&self, k: &PKey) -> bool {
+        key_eq(self.0.len() as u32, k.id)
+    }
+}
+
 thread_local! {
     /// `gen` given to keys created through `From<&KeyRef>` (entry_ref).
     pub static PENDING_GEN: std::cell::Cell<u32> = const { std::cell::Cell::new(0) };
